@@ -179,7 +179,7 @@ func discharge(ob *Obligation, query string, timeoutS int, tmp string, idx int, 
 	}
 	sum := sha256.Sum256([]byte("v1|" + fmt.Sprint(timeoutS, agreement) + "|" + query))
 	h := hex.EncodeToString(sum[:])
-	if e, ok := cacheGet(h); ok && (e.Verdict == "unsat" || (ob.Cover && e.Verdict != "unsat")) {
+	if e, ok := cacheGet(h); ok && ((!ob.Cover && e.Verdict == "unsat") || (ob.Cover && e.Verdict == "sat")) {
 		ob.Verdict, ob.Solver, ob.Time = e.Verdict, e.Solver+"(cached)", e.Time
 		return
 	}
@@ -319,7 +319,7 @@ func solveAll(results []*UnitResult, prelude func() string, timeoutS int, par in
 				q := j.r.buildQuery(j.ob, pre, false)
 				j.ob.Query = q
 				discharge(j.ob, q, timeoutS, tmp, j.i, agreement)
-				if j.ob.Verdict == "unsat" || (j.ob.Cover && j.ob.Verdict != "unsat") {
+				if obOK(j.ob) {
 					j.ob.Query = "" // keep memory low
 				}
 			}
